@@ -138,7 +138,7 @@ def read_cmc_d(data):
     if lines and lines[-1] == b"":
         lines.pop()
     for ln in lines:
-        if len(ln) + 1 > 4095:
+        if len(ln) + 1 > 8191:
             f.notes.add("longline")
         if ln.startswith(b"*TABLED7890123456"):
             f.notes.add("tabled-ruler")
